@@ -650,10 +650,10 @@ func msgBundleFor(reg *template.Registry, r *RNG) string {
 
 func genC02exec(g *G) {
 	n := g.N(1500, 22000)
-	bg := newBundleGen(g.R, bundleOpts{msgs: true, directives: true, calls: true, ij: true})
+	bg := newBundleGen(g.R, bundleOpts{msgs: true, directives: true, calls: true, ij: true, defaultAnywhere: true})
 	genBundles(g, bg, n, false)
 	// a stream without print directives: Spec.render leaves directives to C03/C16, so these bundles are fully specified
-	bg2 := newBundleGen(g.R.Fork(), bundleOpts{msgs: true, directives: false, calls: true, ij: true})
+	bg2 := newBundleGen(g.R.Fork(), bundleOpts{msgs: true, directives: false, calls: true, ij: true, defaultAnywhere: true})
 	genBundles(g, bg2, n/2, false)
 	g.Exhaustive = false
 }
@@ -823,7 +823,7 @@ func hostileValueNoBigNumber(r *RNG) interface{} {
 
 func genC06total(g *G) {
 	n := g.N(1300, 18000)
-	bg := newBundleGen(g.R, bundleOpts{msgs: true, directives: true, calls: true, ij: true, illTyped: 25})
+	bg := newBundleGen(g.R, bundleOpts{msgs: true, directives: true, calls: true, ij: true, illTyped: 25, defaultAnywhere: true})
 	genBundles(g, bg, n, true)
 	// well-typed programs, hostile data
 	bg2 := newBundleGen(g.R.Fork(), bundleOpts{msgs: true, directives: true, calls: true, ij: true})
@@ -883,6 +883,8 @@ func genErrPositions(g *G) {
 		"{let $v}\na{$i}\n{/let}\n{$v}{$u.x}", "{let $v:\n $u.x /}{$v}", "{let $v}\n{$u.x}\n{/let}{$v}", "{log}\na\n{$u.x}{/log}", "{css\n $u.x, a}", "{css $l[0]\n.x, a}",
 		"{foreach $q in $i}\nx{/foreach}", "{foreach $q in\n $u.x}\nx{/foreach}", "{foreach $q in $l}\n{$q}\n{if $q == 2}{$u.x}{/if}\n{/foreach}", "{foreach $q in $e}x{ifempty}\n{$u.x}{/foreach}", "{for $q in range(\n0, 3, 0)}{$q}{/for}",
 		"{switch $i}\n{case 1,\n $u.x}a{case 7}\nb{$u.x}{/switch}", "{switch\n $u.x}{case 1}a{/switch}", "{switch $i}{case 1}a{default}\n\n{$u.x}{/switch}",
+		// a {default} written before a {case}: the cases after it are still tried (their labels evaluated), it runs last
+		"{switch $i}{default}\nd{case 7}seven{case 1}one{/switch}\n{$u.x}", "{switch $i}{default}d{case 99,\n $u.x}a{/switch}", "{switch $i}\n{default}\n{$u.x}{case 99}a{/switch}", "{switch $s}{default}A{case 'q'}\nq{default}\n{$u.x}{/switch}{$u.x}",
 		"{msg desc=\"d\"}\nHello {$i}\n{$u.x}{/msg}", "{msg desc=\"d\"}{plural\n $s}{case 1}one{default}many{/plural}{/msg}", "{msg desc=\"d\"}a{call .c /}\nb{/msg}", "{msg desc=\"d\"}{plural $i}{case 7}\nseven {$u.x}{default}many{/plural}{/msg}",
 		"{if $b}\n{if $b}\n{$u.x}{/if}{/if}", "{$i}{$i}\n{$i}{$u.x}{$i}", "{index($i)}", "{isFirst(\n$i)}", "{foreach $q in $l}{isLast(\n$i)}{/foreach}",
 	}
